@@ -62,6 +62,8 @@ def check_case(run, case, tier='quick'):
                 inside.add(x)
             t += len(gs)
         bounds.update({1, total - 1, total, total + 1, total + 7})
+        if case.get('wide_group'):
+            bounds.update({250, 255, 256, 257, 258, 259, 300, case['wide_group'] - 1, case['wide_group'], case['wide_group'] + 1, 512, 513})
         exhaustive = total <= 300 or (tier == 'thorough' and total <= 1500)
         Ns = list(range(1, total + 3)) if exhaustive else sorted(n for n in bounds | set(rng.sample(range(1, total), 40)) if n >= 1)
         for n in Ns:
@@ -211,6 +213,17 @@ def check_markov_heavy(run, case):
         session.drop_session(sn)
         repo.drop_rules(name)
 
+def wide_group_case(rng):
+    """One probability group with several hundred values in the last position of a structure: --limit has to stop inside it at any N, also N > 256
+    (numbers the interpreter does not intern) and N just below the group size."""
+    n = rng.randint(330, 520)
+    vals = ['%03d' % v for v in rng.sample(range(1000), n)]
+    p = 1.0 / (2 * n)
+    terms = {'D3': [[v, p] for v in vals], 'A2': [['ab', 0.6], ['cd', 0.4]], 'C2': [['LL', 0.7], ['UL', 0.3]], 'O1': [['!', 1.0]]}
+    base = rng.choice([[['D3', 0.6], ['A2O1', 0.4]], [['A2D3', 0.7], ['O1', 0.3]], [['O1D3', 1.0]]])
+    spec = {'encoding': 'utf-8', 'uuid': 'wide-%08x' % rng.getrandbits(32), 'base': base, 'prince': [], 'terms': terms, 'omen': None}
+    return {'spec': spec, 'flags': {'skip_brute': False, 'all_lower': False}, 'hseed': rng.getrandbits(32), 'wide_group': n}
+
 def markov_heavy_case(rng, tier):
     pm, n = (0.999, 60) if tier == 'quick' else (0.9995, 1200)
     spec = rulesets.gen_spec(rng, with_m=True, labels=['D1', 'A2'], n_base=2, max_len=2, min_groups=1, max_groups=2, max_per_group=3, pool='counts')
@@ -233,6 +246,9 @@ def run(run, rng):
         run.guard(gen_case(rng), check_case, run.tier, seconds=600)
     if run.shard[0] == 1 % run.shard[1]:
         run.guard(markov_heavy_case(rng, run.tier), check_markov_heavy, seconds=900)
+    if run.shard[0] == 2 % run.shard[1]:
+        run.ev('wide_group_cases')
+        run.guard(wide_group_case(rng), check_case, run.tier, seconds=600)
     if run.shard[0] == 0:
         case = gen_case(rng)
         case['error_paths'] = True
